@@ -131,9 +131,36 @@ class LineCov:
         return rep
 
 
+_LINECOV = None
+ESCALATION = None      # set by run_check when the source differs from the blessed one (change-directed search)
+
+
+def source_digest():
+    """sha256 per file of REPO/soupsieve/*.py (what the blessed digest in gen/blessed_source.json is compared with)."""
+    import glob
+    import hashlib
+    out = {}
+    for f in sorted(glob.glob(os.path.join(REPO, 'soupsieve', '*.py'))):
+        out[os.path.basename(f)] = hashlib.sha256(open(f, 'rb').read()).hexdigest()
+    return out
+
+
+def changed_source_files():
+    """Files of the library that differ from the tree the checks were last validated on (None: no blessed digest)."""
+    path = os.path.join(ROOT, 'gen', 'blessed_source.json')
+    if not os.path.exists(path):
+        return None
+    blessed = json.load(open(path)).get('files', {})
+    now = source_digest()
+    return sorted(k for k in set(blessed) | set(now) if blessed.get(k) != now.get(k))
+
+
 class Check:
     def __init__(self, pid, tier, seed, keep_replays=False):
-        self.linecov = LineCov(REPO)
+        global _LINECOV
+        if _LINECOV is None:
+            _LINECOV = LineCov(REPO)
+        self.linecov = _LINECOV
         self.pid = pid
         self.tier = tier
         self.seed = seed
@@ -258,6 +285,8 @@ class Check:
         if extra:
             cov.update(extra)
         cov['source_lines_executed_in_process'] = self.linecov.report()
+        if ESCALATION:
+            self.notes['change_directed_search'] = ESCALATION
         if not cov.get('obligations') or not cov.get('discharged'):
             cov['theorems_registered'] = cov.pop('obligations', 0)
             cov['theorems_discharged'] = cov.pop('discharged', 0)
